@@ -93,7 +93,56 @@ def gen_cases(tier, seed):
     for i in range(8 if tier == "quick" else 100):
         cases.append({"kind": "triangular", "seed": env.subseed(seed, "c06tri", i), "world": "f64",
                       "n": 6 if tier == "quick" else 20, "cost": 2})
+    # the public building blocks stacked by hand: a residual block on a layer whose degrees do not match its own must be refused
+    # or stay autoregressive (its skip connection carries the units of the layer below straight into its own units)
+    for i in range(4 if tier == "quick" else 60):
+        cases.append({"kind": "block_guard", "copy": ["transforms", "nde"][i % 2], "F": 3 + (i // 2) % 4, "H": 5 + i % 5,
+                      "seed": env.subseed(seed, "c06blk", i), "world": "f64", "n": 40 if tier == "quick" else 200, "cost": 2})
     return cases
+
+
+def run_block_guard(case):
+    import importlib
+    r = R(case)
+    mod = importlib.import_module("nflows.transforms.made" if case["copy"] == "transforms" else "nflows.nn.nde.made")
+    F_, H = case["F"], case["H"]
+    for k in range(case["n"]):
+        torch.manual_seed(case["seed"] + k)
+        try:
+            first = mod.MaskedLinear(in_degrees=torch.arange(1, F_ + 1), out_features=H, autoregressive_features=F_,
+                                     random_mask=True, is_output=False)
+        except Exception as e:
+            r.inconc("MaskedLinear could not be built: %r" % (e,))
+            break
+        try:
+            block = mod.MaskedResidualBlock(in_degrees=first.degrees, autoregressive_features=F_)
+        except RuntimeError:
+            r.count("blocks_refused")
+            continue
+        except Exception as e:
+            r.count("blocks_refused_other_exception")
+            continue
+        r.count("blocks_built")
+        last = mod.MaskedLinear(in_degrees=block.degrees, out_features=F_, autoregressive_features=F_, random_mask=False, is_output=True)
+        with torch.no_grad():
+            for lin in [first] + list(block.linear_layers) + [last]:
+                lin.weight.fill_(1.0)
+                lin.bias.fill_(1.0)
+        x = torch.rand(1, F_) + 0.5
+        jac = torch.autograd.functional.jacobian(lambda z: last(block(first(z)))[0], x)[:, 0, :]
+        r.ev()
+        r.count("jacobian_entries", int(jac.numel()))
+        leak = torch.triu(jac.abs()) > 0
+        if leak.any():
+            i_, j_ = [int(v) for v in leak.nonzero()[0]]
+            r.viol("leak", "MADE output block depends on an input of equal or higher index", where="MaskedResidualBlock stacked on a "
+                   "MaskedLinear with other degrees (%s copy)" % case["copy"], out=i_, inp=j_, first_degrees=first.degrees.tolist(),
+                   block_degrees=block.degrees.tolist())
+            break
+        r.cell("block_guard", case["copy"], F_, H)
+    r.count("taint_probes", 0)
+    r.sample({"block_guard": {"copy": case["copy"], "F": F_, "H": H}})
+    return r.done()
 
 
 def build(a, seed):
@@ -145,6 +194,8 @@ def reach_matrix(model, Fq, ctx):
 def run_case(case):
     if case["kind"] == "triangular":
         return run_triangular(case)
+    if case["kind"] == "block_guard":
+        return run_block_guard(case)
     r = R(case)
     for ai, a in enumerate(case["archs"]):
         seed = env.subseed(case["seed"], ai)
